@@ -95,6 +95,7 @@ PROPS = {
         "technique": "runtime monitoring: typed echo handlers on a real server + generated values x legal encodings x framings x pipelining, compared at the client boundary; event-log sweep for concurrency and exactly-one entry per request",
         "engines": [
             {"name": "c09-echo"},
+            {"name": "c09-tls", "bin": "vmon_tls", "package": "tlsmon"},
             asan("C09", "c09-echo"),
         ],
         "assumptions": ASSUME_COMMON,
@@ -131,6 +132,7 @@ PROPS = {
         "technique": "runtime monitoring with fault injection: exhaustive truncation + generated hostile traffic against real servers, strict response-grammar oracle, continuous health probes, panic monitor; ASan build in thorough",
         "engines": [
             {"name": "c18-hostile"},
+            {"name": "c18-tls", "bin": "vmon_tls", "package": "tlsmon"},
             asan("C18", "c18-hostile"),
         ],
         "assumptions": ASSUME_COMMON,
